@@ -27,11 +27,16 @@ RULE = (
     "escalate, TICK (virtual time passes), stop; BFS over operation sequences to the depth bound, deduplicated by "
     "(canonical implementation state, reference-model state); after EVERY step the implementation is compared with a "
     "dictionary reference model: children map, registry, per-actor received sequence numbers, parent's "
-    "acknowledgements, warnings for unresolvable/ambiguous targets, liveness of stopped actors and their descendants; "
-    "distinct_nontrivial = distinct joint states"
+    "acknowledgements, warnings for unresolvable/ambiguous targets, liveness of stopped actors and their descendants. "
+    "Sync threads (E3p): one caller thread arming, re-arming and cancelling delayed sends under one send id against the fire "
+    "threads, every interleaving at line granularity inside _deliver / _fire / _cancel / send / _process_event_queue within the "
+    "preemption bound; oracle: a send that was still waiting when its cancel or re-arm completed is never delivered, an armed "
+    "send that was never cancelled or superseded is delivered exactly once, no send id stays registered without a pending send; "
+    "distinct_nontrivial = distinct joint states + distinct schedules"
 )
-BOUNDS = {"quick": "depth 4, both engines", "thorough": "depth 5, both engines"}
+BOUNDS = {"quick": "depth 4, both engines; sync threads: arm / re-arm / cancel of one send id against its fire threads, every line-level interleaving with <=1 preemption", "thorough": "depth 5, both engines; sync threads: <=2 preemptions (arm-rearm-cancel: 1)"}
 ASSUMPTIONS = [
+    "thread slice: a delayed send whose timer had already expired when the cancel / re-arm completed is concurrent with it and may still be delivered; one that was still waiting must not be",
     "a service key that matches several live actors (by id segment or by originating service) is ambiguous: the event must be dropped with a warning",
     "TICK uses the default timer order; tie orders are C08's subject",
 ]
@@ -401,6 +406,8 @@ def units(tier: str) -> List[Any]:
     depth = 4 if tier == "quick" else 5
     core.install_logging()
     us: List[Any] = []
+    for variant, (bq, bt) in PREEMPT.items():
+        us.append(("preempt", variant, bq if tier == "quick" else bt))
     for engine in ENGINES:
         res = dict(states=0, transitions=0, executions=0, distinct=[], violations=[], samples=[], caps=[])
         seen: set = set()
@@ -415,9 +422,17 @@ def units(tier: str) -> List[Any]:
     return us
 
 
+PREEMPT = {"arm-cancel": (1, 2), "arm-rearm": (1, 2), "arm-rearm-cancel": (1, 1), "arm-cancel-arm": (1, 2)}
+
+
 def run_unit(unit):
     if unit[0] == "pre":
         return unit[2]
+    if unit[0] == "preempt":
+        from . import c15_preempt as P
+        from ..preempt import unit_result
+
+        return unit_result("C15", P, unit[1], unit[2], lambda v: f"caller ops {P.VARIANTS[v]} (10 ms apart) against the delayed-send threads of send id 'x'")
     _, engine, root, depth = unit
     res = dict(states=0, transitions=0, executions=0, distinct=[], violations=[], samples=[], caps=[f"depth {depth}"])
     seen: set = set()
@@ -431,6 +446,11 @@ def run_unit(unit):
 
 
 def replay(payload):
+    if payload.get("engine") == "preempt":
+        from . import c15_preempt as P
+        from ..preempt import replay_unit
+
+        return replay_unit("C15", P, payload)
     r = run_seq(payload["engine"], payload["seq"])
     try:
         for c, d in r.problems:
